@@ -170,6 +170,15 @@ FIXED_TEXTS = """1234567890123456789 12345678901234567890 1234567890123456789012
 6.631236871469758276785396630275967243399099947355303144249971758736286630139265439618068200788048744105960420552601852889715006376325666595539603330361800519107591783233358492337208057849499360899425128640718856616503093444922854759159988160304439909868291973931426625698663157749836252274523485312442358651207051292453083278116143932569727918709786004497872322193856150225415211997283078496319412124640111777216148110752815101775295719811974338451936095907419622417538473679495148632480391435931767981122396703443803335529756003353209830071832230689201383015598792184172909927924176339315507402234836120730914783168400715462440053817592702766213559042115986763819482654128770595766806872783349146967171293949598850675682115696218943412532098591327667236328125E-316""".split()
 
 
+JSON_RE = re.compile(r"^-?(0|[1-9]\d*)(\.\d+)?([eE][+-]?\d+)?$")
+LIT_RE = re.compile(r"^([+-]?((0|[1-9]\d*)(\.\d*)?|\.\d+)([eE][+-]?\d+)?|0[xX][0-9a-fA-F]+|0[oO][0-7]+|0[bB][01]+)$")
+
+
+def text_flags(t):
+    """1 = the text is a (signed) numeric literal that may be evaluated as source, 2 = it is a JSON number"""
+    return (1 if LIT_RE.match(t) else 0) | (2 if JSON_RE.match(t) else 0)
+
+
 def gen_texts(tier):
     """-> list of (text, family, flags): flags 1 = valid source literal (eval), 2 = valid JSON number."""
     thorough = tier == "thorough"
@@ -189,14 +198,11 @@ def gen_texts(tier):
     bases.setdefault(0x7FEFFFFFFFFFFFFF, "max")
     bases.setdefault(R.TWO52 - 1, "maxsub")
     out = {}
-    json_re = re.compile(r"^-?(0|[1-9]\d*)(\.\d+)?([eE][+-]?\d+)?$")
-    lit_re = re.compile(r"^[+-]?((0|[1-9]\d*)(\.\d*)?|\.\d+)([eE][+-]?\d+)?$")
 
     def add(t, fam):
         if t in out:
             return
-        fl = (1 if lit_re.match(t) else 0) | (2 if json_re.match(t) else 0)
-        out[t] = (fam, fl)
+        out[t] = (fam, text_flags(t))
 
     for t in FIXED_TEXTS:
         add(t, "fixed")
@@ -229,12 +235,35 @@ def gen_texts(tier):
         for kind, dg, n in forms:
             dg2 = dg.rstrip("0") or "0"
             add(_exp_form(dg2, n), kind)
-            if -25 <= n <= 40 and len(dg2) <= 60:
+            if -25 <= n <= 330 and len(dg2) <= 60:
                 add(_pos_form(dg2, n), kind + "-pos")
             if idx % 8 == 0:
                 add("-" + _exp_form(dg2, n), kind + "-neg")
         idx += 1
+    # integer literals in radix 16 / 8 / 2 and as plain decimals, around rounding ties of wide integers
+    for n in _tie_integers(thorough):
+        add("0x" + R.int_to_radix(n, 16), "nondecimal")
+        add("0X" + R.int_to_radix(n, 16).upper(), "nondecimal")
+        add("0o" + R.int_to_radix(n, 8), "nondecimal")
+        add("0b" + R.int_to_radix(n, 2), "nondecimal")
+        add(str(n), "wide-integer")
     return [(t, f, fl) for t, (f, fl) in out.items()]
+
+
+def _tie_integers(thorough):
+    """integers with more than 53 significant bits placed just below / at / just above a rounding tie"""
+    bs = [53, 54, 55, 56, 57, 59, 60, 63, 64, 65, 70, 100, 127, 128, 129, 200, 1000] if thorough else [53, 54, 57, 60, 64, 65, 100, 128, 129]
+    out = []
+    for b in bs:
+        h = 1 << (b - 53) if b > 53 else 1
+        ns = [2 ** b + 1] if b == 53 else [2 ** b + h - 1, 2 ** b + h, 2 ** b + h + 1, 2 ** b + 3 * h, 2 ** b + 3 * h - 1, 2 ** b + 3 * h + 1,
+                                           2 ** (b + 1) - h, 2 ** (b + 1) - h - 1]
+        # the excess over the tie sits in one bit that is neither the lowest nor near the top (sticky-bit handling of wide integers)
+        for extra in (2, 1 << max(1, (b - 53) // 2), 1 << max(1, b - 53 - 3)):
+            if b > 53 and extra < h and 2 ** b + h + extra not in ns:
+                ns.append(2 ** b + h + extra)
+        out += ns
+    return out
 
 
 def gen_parseint(tier):
@@ -259,14 +288,9 @@ def gen_parseint(tier):
         for t in (pat[:L], "9" * L, "1" + "0" * (L - 2) + "1", "8" + "5" * (L - 1)):
             add(t, 10, "dec-len")
     # integers with more than 53 significant bits around rounding ties, written exactly in each radix
-    bs = [53, 54, 55, 56, 57, 59, 60, 63, 64, 65, 70, 100, 200, 1000] if thorough else [53, 54, 57, 60, 64, 65, 100]
-    for b in bs:
-        h = 1 << (b - 53) if b > 53 else 1
-        ns = [2 ** b + 1] if b == 53 else [2 ** b + h - 1, 2 ** b + h, 2 ** b + h + 1, 2 ** b + 3 * h, 2 ** b + 3 * h - 1, 2 ** b + 3 * h + 1,
-                                           2 ** (b + 1) - h, 2 ** (b + 1) - h - 1]
-        for n in ns:
-            for r in (R_P2 + [10]) if not thorough else list(range(2, 37)):
-                add(R.int_to_radix(n, r), r, "tie-bits")
+    for n in _tie_integers(thorough):
+        for r in (R_P2 + [10]) if not thorough else list(range(2, 37)):
+            add(R.int_to_radix(n, r), r, "tie-bits")
     # safe integers in every radix
     for r in range(2, 37):
         for n in (R.TWO53, R.TWO53 - 1, r ** 5 + 1, 123456789, 4503599627370497):
@@ -328,26 +352,49 @@ JS_HEAD = ("var u32=new Uint32Array(2),f64=new Float64Array(u32.buffer);"
 
 
 def src_num(meta):
+    """One raw __emit per result (no accumulation in the engine: its string concatenation is linear in the accumulated length).
+    Per value: a marker line '#k', then the results in the fixed order that `num_layout` describes."""
     B = []
     for b, fl in meta["vals"]:
         B += [b & 0xFFFFFFFF, b >> 32, fl]
     FD, ED, PD, RA, RB = meta["FD"], meta["ED"], meta["PD"], meta["RA"], meta["RB"]
     s = [JS_HEAD, "var B=%s,FD=%s,ED=%s,PD=%s,RA=%s,RB=%s;" % tuple(json.dumps(x, separators=(",", ":")) for x in (B, FD, ED, PD, RA, RB)),
-         "for(var i=0;i<B.length;i+=3){var x=new Float64Array(new Uint32Array([B[i],B[i+1]]).buffer)[0],fl=B[i+2],k=i/3,a,b,j,t,rr;"]
+         "for(var i=0;i<B.length;i+=3){var x=new Float64Array(new Uint32Array([B[i],B[i+1]]).buffer)[0],fl=B[i+2],j,t,rr;__emit('#'+i/3);"]
     if meta.get("S", True):
-        s.append("var s=String(x);__emit('S'+k+' '+s+' '+(''+x)+' '+x.toString(10)+' '+x.toString());"
-                 "__emit('R'+k+' '+bits(Number(s))+' '+bits(parseFloat(s))+' '+bits(+s)+' '+ev(s)+' '+(x-x===0?js(s):'-'));")
+        s.append("var s=String(x);__emit(s);__emit(''+x);__emit(x.toString(10));__emit(x.toString());"
+                 "__emit(bits(Number(s)));__emit(bits(parseFloat(s)));__emit(bits(+s));__emit(ev(s));__emit(x-x===0?js(s):'-');")
     if FD:
-        s.append("a='';for(j=0;j<FD.length;j++)a+=(j?',':'')+x.toFixed(FD[j]);__emit('F'+k+' '+a);")
-    if ED or meta.get("EU", True):
-        s.append("a='';for(j=0;j<ED.length;j++)a+=x.toExponential(ED[j])+',';a+=x.toExponential()+','+x.toExponential(undefined);__emit('E'+k+' '+a);")
-    if PD or meta.get("PU", True):
-        s.append("a='';for(j=0;j<PD.length;j++)a+=x.toPrecision(PD[j])+',';a+=x.toPrecision(undefined);__emit('P'+k+' '+a);")
+        s.append("for(j=0;j<FD.length;j++)__emit(x.toFixed(FD[j]));")
+    if ED:
+        s.append("for(j=0;j<ED.length;j++)__emit(x.toExponential(ED[j]));")
+    if meta.get("EU", True):
+        s.append("__emit(x.toExponential());__emit(x.toExponential(undefined));")
+    if PD:
+        s.append("for(j=0;j<PD.length;j++)__emit(x.toPrecision(PD[j]));")
+    if meta.get("PU", True):
+        s.append("__emit(x.toPrecision(undefined));")
     if RA or RB:
-        s.append("rr=(fl&1)?RA:RB;if(rr.length){a='';b='';for(j=0;j<rr.length;j++){t=x.toString(rr[j]);a+=(j?',':'')+t;b+=(j?',':'')+bits(parseInt(t,rr[j]));}"
-                 "__emit('T'+k+' '+a);__emit('I'+k+' '+b);}")
+        s.append("rr=(fl&1)?RA:RB;for(j=0;j<rr.length;j++){t=x.toString(rr[j]);__emit(t);__emit(bits(parseInt(t,rr[j])));}")
     s.append("}")
     return "".join(s)
+
+
+def num_layout(meta, fl):
+    """[(operation, argument)] in emission order for one value with flag fl"""
+    out = []
+    if meta.get("S", True):
+        out += [("String", None), ("concat", None), ("toString10", None), ("toString", None),
+                ("Number", None), ("parseFloat", None), ("unaryPlus", None), ("eval", None), ("JSON.parse", None)]
+    out += [("toFixed", d) for d in meta["FD"]]
+    out += [("toExponential", d) for d in meta["ED"]]
+    if meta.get("EU", True):
+        out += [("toExponential", "none"), ("toExponential", "undefined")]
+    out += [("toPrecision", p) for p in meta["PD"]]
+    if meta.get("PU", True):
+        out += [("toPrecision", "undefined")]
+    for r in (meta["RA"] if fl & 1 else meta["RB"]):
+        out += [("toStringRadix", r), ("parseInt", r)]
+    return out
 
 
 def src_txt(meta):
@@ -377,13 +424,15 @@ def make_job(meta):
 def build_metas(tier, vals, texts, pints):
     thorough = tier == "thorough"
     FD, ED, PD = (FULL_F, FULL_E, FULL_P) if thorough else (QUICK_F, QUICK_E, QUICK_P)
-    per = 24 if thorough else 32
+    per = 8 if thorough else 16  # small batches: the harness caps a job at 20 s of wall time and the machine may be shared
     metas = []
-    for i in range(0, len(vals), per):
-        metas.append({"kind": "num", "vals": [(b, fl) for b, f, fl in vals[i:i + per]], "FD": FD, "ED": ED, "PD": PD, "RA": R_ALL, "RB": R_P2,
-                      "first": i})
-    for i in range(0, len(texts), 400):
-        metas.append({"kind": "txt", "texts": [(t, fl) for t, f, fl in texts[i:i + 400]], "first": i})
+    # values are dealt round-robin so that every batch mixes magnitudes (conversion cost depends on the magnitude)
+    J = (len(vals) + per - 1) // per
+    for j in range(J):
+        metas.append({"kind": "num", "vals": [(b, fl) for b, f, fl in vals[j::J]], "FD": FD, "ED": ED, "PD": PD, "RA": R_ALL, "RB": R_P2,
+                      "first": j, "step": J})
+    for i in range(0, len(texts), 250):
+        metas.append({"kind": "txt", "texts": [(t, fl) for t, f, fl in texts[i:i + 250]], "first": i})
     for i in range(0, len(pints), 400):
         metas.append({"kind": "pint", "items": [[t.replace("\\t", "\t").replace("\\n", "\n"), r] for t, r, f in pints[i:i + 400]], "first": i})
     metas.append({"kind": "misc", "exprs": [e for e, _ in MISC], "first": 0})
@@ -419,6 +468,7 @@ class Acc:
         self.outs = set()
         self.samples = []
         self.selfchecks = 0
+        self.lenient = []
 
     def cmp(self, cls, case, obs, exp, allowed=None):
         self.n_cmp += 1
@@ -429,6 +479,8 @@ class Acc:
             return True
         if allowed is not None and obs in allowed:
             self.n_lenient += 1
+            if len(self.lenient) < 20:
+                self.lenient.append((cls, case, _hx(obs), _hx(exp)))
             return True
         self.mism.append((cls, case, _hx(obs), _hx(exp)))
         return False
@@ -454,102 +506,93 @@ def _lines(res):
 
 def compare_num(meta, res, acc, selfcheck_stride=53):
     comp = res.get("completion") or ""
-    L = _lines(res)
-    FD, ED, PD = meta["FD"], meta["ED"], meta["PD"]
+    lines = res.get("lines", [])
+    pos = 0
     for k, (b, fl) in enumerate(meta["vals"]):
         v = R.Val(b)
         hb = "%016x" % b
-        gi = meta.get("first", 0) + k
-        if meta.get("S", True):
-            want = R.js_tostring(v)
-            if "S%d" % k not in L or "R%d" % k not in L:
-                acc.cmp("job", {"op": "job", "bits": hb}, "missing output; completion=" + comp, "lines")
-                continue
+        gi = meta.get("first", 0) + k * meta.get("step", 1)
+        lay = num_layout(meta, fl)
+        if pos >= len(lines) or lines[pos] != "#%d" % k or pos + 1 + len(lay) > len(lines) or \
+                (pos + 1 + len(lay) < len(lines) and not lines[pos + 1 + len(lay)].startswith("#")):
+            acc.cmp("job", {"op": "job", "bits": hb}, "output missing or misaligned; completion=" + comp, "lines")
+            # resynchronise on the next marker
+            nxt = "#%d" % (k + 1)
+            while pos < len(lines) and lines[pos] != nxt:
+                pos += 1
+            continue
+        got = lines[pos + 1:pos + 1 + len(lay)]
+        pos += 1 + len(lay)
+        slow = selfcheck_stride and gi % selfcheck_stride == 0 and v.kind == "fin"
+        if slow and not R.MUTATE and not R.slow_shortest_ok(v):
+            raise core.MachineryError("reference: shortest digits fail the independent examination for " + hb)
+        want_s = R.js_tostring(v)
+        if meta.get("S", True) and v.kind == "fin":
             # reference self-examination (cheap): round trip and the host's repr
-            if v.kind == "fin":
-                if R.str_to_bits(want) != b:
-                    raise core.MachineryError("reference: parse(shortest(x)) != x for " + hb)
-                dg, nn = R._digits(v)
-                if R.host_repr_digits(b) != (dg, nn):
-                    raise core.MachineryError("reference shortest digits differ from host repr for " + hb)
-                acc.selfchecks += 2
-            parts = L["S%d" % k].split(" ")
-            for name, o in zip(("String", "concat", "toString10", "toString"), parts):
-                acc.cmp(name, {"op": name, "bits": hb, "arg": None}, o, want)
-            s_obs = parts[0]
-            rb = R.str_to_bits(s_obs) if s_obs != "NaN" else R.NAN_BITS
-            rp = L["R%d" % k].split(" ")
-            for name, o in zip(("Number", "parseFloat", "unaryPlus", "eval", "JSON.parse"), rp):
+            if R.str_to_bits(want_s) != b and not R.MUTATE:
+                raise core.MachineryError("reference: parse(shortest(x)) != x for " + hb)
+            if R.host_repr_digits(b) != R._digits(v) and not R.MUTATE:
+                raise core.MachineryError("reference shortest digits differ from host repr for " + hb)
+            acc.selfchecks += 2
+        s_obs = rb = None
+        last_t = None
+        for (op, arg), o in zip(lay, got):
+            if op in ("String", "concat", "toString10", "toString"):
+                if op == "String":
+                    s_obs = o
+                    rb = R.str_to_bits(o) if o != "NaN" else R.NAN_BITS
+                acc.cmp(op, {"op": op, "bits": hb, "arg": None}, o, want_s)
+            elif op in ("Number", "parseFloat", "unaryPlus", "eval", "JSON.parse"):
                 if o == "-":
                     continue
                 if rb is None:
-                    acc.undet(name, o)
-                    continue
-                acc.cmp(name, {"op": name, "bits": hb, "arg": s_obs}, _pb(o), rb)
-        slow = selfcheck_stride and gi % selfcheck_stride == 0 and v.kind == "fin"
-        if slow and not R.slow_shortest_ok(v):
-            raise core.MachineryError("reference: shortest digits fail the independent examination for " + hb)
-        if FD:
-            got = L.get("F%d" % k, "").split(",")
-            for d, o in zip(FD, got + ["<missing>"] * (len(FD) - len(got))):
-                want = R.js_tofixed(v, d)
+                    acc.undet(op, o)
+                else:
+                    acc.cmp(op, {"op": op, "bits": hb, "arg": s_obs}, _pb(o), rb)
+            elif op == "toFixed":
+                want = R.js_tofixed(v, arg)
                 if slow:
                     acc.selfchecks += 1
-                    if R.slow_tofixed(v, d) != want and not R.MUTATE:
-                        raise core.MachineryError("reference fast/slow toFixed differ %s %d" % (hb, d))
-                acc.cmp("toFixed", {"op": "toFixed", "bits": hb, "arg": d}, o, want)
-        if "E%d" % k in L or ED:
-            got = L.get("E%d" % k, "").split(",")
-            args = list(ED) + [None, "undefined"]
-            got += ["<missing>"] * (len(args) - len(got))
-            for d, o in zip(args, got):
-                if d is None or d == "undefined":
-                    want = R.js_toexponential(v, None)
-                    acc.cmp("toExponential", {"op": "toExponential", "bits": hb, "arg": "none" if d is None else d}, o, want,
-                            allowed=R.js_toexponential_undefined_allowed(v))
+                    if R.slow_tofixed(v, arg) != want and not R.MUTATE:
+                        raise core.MachineryError("reference fast/slow toFixed differ %s %d" % (hb, arg))
+                acc.cmp(op, {"op": op, "bits": hb, "arg": arg}, o, want)
+            elif op == "toExponential":
+                if isinstance(arg, str):
+                    acc.cmp(op, {"op": op, "bits": hb, "arg": arg}, o, R.js_toexponential(v, None), allowed=R.js_toexponential_undefined_allowed(v))
                     continue
-                want = R.js_toexponential(v, d)
+                want = R.js_toexponential(v, arg)
                 if slow:
                     acc.selfchecks += 1
-                    if R.slow_toexponential(v, d) != want and not R.MUTATE:
-                        raise core.MachineryError("reference fast/slow toExponential differ %s %d" % (hb, d))
-                acc.cmp("toExponential", {"op": "toExponential", "bits": hb, "arg": d}, o, want)
-        if "P%d" % k in L or PD:
-            got = L.get("P%d" % k, "").split(",")
-            args = list(PD) + ["undefined"]
-            got += ["<missing>"] * (len(args) - len(got))
-            for p, o in zip(args, got):
-                if p == "undefined":
-                    acc.cmp("toPrecision", {"op": "toPrecision", "bits": hb, "arg": p}, o, R.js_tostring(v))
+                    if R.slow_toexponential(v, arg) != want and not R.MUTATE:
+                        raise core.MachineryError("reference fast/slow toExponential differ %s %d" % (hb, arg))
+                acc.cmp(op, {"op": op, "bits": hb, "arg": arg}, o, want)
+            elif op == "toPrecision":
+                if isinstance(arg, str):
+                    acc.cmp(op, {"op": op, "bits": hb, "arg": arg}, o, want_s)
                     continue
-                want = R.js_toprecision(v, p)
+                want = R.js_toprecision(v, arg)
                 if slow:
                     acc.selfchecks += 1
-                    if R.slow_toprecision(v, p) != want and not R.MUTATE:
-                        raise core.MachineryError("reference fast/slow toPrecision differ %s %d" % (hb, p))
-                acc.cmp("toPrecision", {"op": "toPrecision", "bits": hb, "arg": p}, o, want)
-        rr = meta["RA"] if fl & 1 else meta["RB"]
-        if rr:
-            got = L.get("T%d" % k, "").split(",")
-            goti = L.get("I%d" % k, "").split(",")
-            got += ["<missing>"] * (len(rr) - len(got))
-            goti += ["<missing>"] * (len(rr) - len(goti))
-            for r, o, oi in zip(rr, got, goti):
-                want = R.js_toradix(v, r)
+                    if R.slow_toprecision(v, arg) != want and not R.MUTATE:
+                        raise core.MachineryError("reference fast/slow toPrecision differ %s %d" % (hb, arg))
+                acc.cmp(op, {"op": op, "bits": hb, "arg": arg}, o, want)
+            elif op == "toStringRadix":
+                last_t = o
+                want = R.js_toradix(v, arg)
                 if want is None:
-                    acc.undet("toStringRadix", o)
+                    acc.undet(op, o)
                 else:
-                    acc.cmp("toStringRadix", {"op": "toStringRadix", "bits": hb, "arg": r}, o, want)
-                if o == "<missing>":
-                    eb, al = R.NAN_BITS, {R.NAN_BITS}
-                else:
-                    eb, al = R.js_parseint(o, r)
+                    acc.cmp(op, {"op": op, "bits": hb, "arg": arg}, o, want)
+            elif op == "parseInt":
+                eb, al = R.js_parseint(last_t, arg)
                 if al is None:
-                    acc.undet("parseInt", oi)
+                    acc.undet(op, o)
                 else:
-                    acc.cmp("parseInt", {"op": "parseInt", "text": o, "arg": r}, _pb(oi), eb, allowed=al)
-        if k % 16 == 0 and len(acc.samples) < 2 and meta.get("S", True) and "F%d" % k in L:
-            acc.samples.append({"bits": hb, "String": L["S%d" % k].split(" ")[0], "toFixed(%d)" % FD[-1]: L["F%d" % k].split(",")[-1]})
+                    acc.cmp(op, {"op": op, "text": last_t, "arg": arg}, _pb(o), eb, allowed=al)
+        if len(acc.samples) < 1 and meta.get("S", True) and len(meta["FD"]) > 3 and len(meta["PD"]) > 3 and v.kind == "fin" and -4 < v.n < 12 \
+                and len(v.D) > 20:
+            acc.samples.append({"bits": hb, "String(x)": got[0], "Number(String(x)) bits": got[4], "x.toFixed(%d)" % meta["FD"][3]: got[9 + 3],
+                                "x.toPrecision(%d)" % meta["PD"][-1]: got[9 + len(meta["FD"]) + len(meta["ED"]) + 2 + len(meta["PD"]) - 1]})
 
 
 def compare_txt(meta, res, acc):
@@ -565,8 +608,12 @@ def compare_txt(meta, res, acc):
         if exact is None or (hf is not None and hf != exact and not R.MUTATE):
             raise core.MachineryError("reference str_to_bits differs from host float() on %r" % t)
         acc.selfchecks += 1
+        nondec = R.nondecimal_value(t) is not None
         for name, o in zip(("text:Number", "text:parseFloat", "text:unaryPlus", "text:eval", "text:JSON.parse"), L["N%d" % i].split(" ")):
             if o == "-":
+                continue
+            if nondec and name == "text:parseFloat":
+                acc.cmp(name, {"op": name, "text": t}, _pb(o), 0)  # parseFloat stops after the leading "0"
                 continue
             acc.cmp(name, {"op": name, "text": t}, _pb(o), exact, allowed=allowed)
 
@@ -604,10 +651,38 @@ def _task(arg):
     """Pool worker: execute a few jobs on the engine, compare with the reference, return a summary."""
     metas, mutate = arg
     R.MUTATE = mutate
-    jobs = [make_job(m) for m in metas]
-    res = core.run_jobs(jobs, nproc=1, chunk=len(jobs))
+    metas, jobs, res = _execute(metas)
     shutil.rmtree(core._tmpdir(), ignore_errors=True)
     return _digest(metas, jobs, res)
+
+
+_SPLIT_KEY = {"num": "vals", "txt": "texts", "pint": "items", "misc": "exprs"}
+
+
+def _execute(metas):
+    """Run the batches; a batch that hits the harness' per-job wall cap (`Hang`) is split in two and re-run (the cap is per job and the
+    machine may be shared), so that only a conversion that hangs on its own is reported as such."""
+    jobs = [make_job(m) for m in metas]
+    res = core.run_jobs(jobs, nproc=1, chunk=len(jobs))
+    om, oj, orr = [], [], []
+    for m, j, r in zip(metas, jobs, res):
+        key = _SPLIT_KEY[m["kind"]]
+        if (r.get("completion") or "").startswith("Hang") and len(m[key]) > 1:
+            h = len(m[key]) // 2
+            a = dict(m)
+            a[key] = m[key][:h]
+            b = dict(m)
+            b[key] = m[key][h:]
+            b["first"] = m.get("first", 0) + h * m.get("step", 1)
+            sm, sj, sr = _execute([a, b])
+            om += sm
+            oj += sj
+            orr += sr
+        else:
+            om.append(m)
+            oj.append(j)
+            orr.append(r)
+    return om, oj, orr
 
 
 def _digest(metas, jobs, res):
@@ -627,8 +702,8 @@ def _digest(metas, jobs, res):
         else:
             unknown.append((cls, case, obs, exp, ck, ok))
     return {"n_cmp": acc.n_cmp, "n_exec": acc.n_exec, "n_undet": acc.n_undet, "n_lenient": acc.n_lenient, "per_op": acc.per_op,
-            "outs": b"".join(sorted(acc.outs)), "known": known, "unknown": unknown, "samples": acc.samples, "selfchecks": acc.selfchecks,
-            "bad_jobs": [(m["kind"], m.get("first"), c) for m, c in bad_jobs]}
+            "outs": b"".join(sorted(acc.outs)), "known": known, "unknown": unknown, "samples": acc.samples, "selfchecks": acc.selfchecks, "lenient": acc.lenient,
+            "bad_jobs": bad_jobs}
 
 
 def replay_meta(case):
@@ -640,8 +715,7 @@ def replay_meta(case):
         return {"kind": "pint", "items": [[case["text"], case.get("arg")]]}
     if op.startswith("text:"):
         t = case["text"]
-        fl = 3
-        return {"kind": "txt", "texts": [(t, fl)]}
+        return {"kind": "txt", "texts": [(t, text_flags(t))]}
     b = int(case["bits"], 16)
     m = {"kind": "num", "vals": [(b, 1)], "FD": [], "ED": [], "PD": [], "RA": [], "RB": [], "S": False, "EU": False, "PU": False}
     a = case.get("arg")
@@ -650,11 +724,13 @@ def replay_meta(case):
     elif op == "toExponential":
         if isinstance(a, int):
             m["ED"] = [a]
-        m["EU"] = True
+        else:
+            m["EU"] = True
     elif op == "toPrecision":
         if isinstance(a, int):
             m["PD"] = [a]
-        m["PU"] = True
+        else:
+            m["PU"] = True
     elif op == "toStringRadix":
         m["RA"] = [a]
     else:
@@ -672,10 +748,13 @@ def what_of(cls, case, obs, exp):
     else:
         subj = case.get("expr", "")
     o, e = str(obs), str(exp)
-    if len(o) > 70:
-        o = o[:60] + "...(%d chars)" % len(o)
-    if len(e) > 70:
-        e = e[:60] + "...(%d chars)" % len(e)
+    if len(o) > 70 or len(e) > 70:
+        i = 0
+        while i < len(o) and i < len(e) and o[i] == e[i]:
+            i += 1
+        st = max(0, i - 8)
+        o = "%s%s%s(len %d, first difference at %d)" % ("..." if st else "", o[st:i + 24], "..." if len(o) > i + 24 else "", len(o), i)
+        e = "%s%s%s(len %d)" % ("..." if st else "", e[st:i + 24], "..." if len(e) > i + 24 else "", len(e))
     return "%s arg=%s %s: got %s expected %s" % (cls, case.get("arg"), subj, o, e)
 
 
@@ -692,12 +771,12 @@ def explore(tier, mutate="", known=None, only_kinds=None):
     metas = build_metas(tier, vals, texts, pints)
     if only_kinds:
         metas = [m for m in metas if m["kind"] in only_kinds]
-    group = 2
+    group = 8 if tier == "thorough" else 3
     tasks = [(metas[i:i + group], mutate) for i in range(0, len(metas), group)]
     ctx = multiprocessing.get_context("fork")
     with ctx.Pool(min(core.NPROC, len(tasks))) as pool:
         parts = pool.map(_task, tasks, chunksize=1)
-    tot = {"n_cmp": 0, "n_exec": 0, "n_undet": 0, "n_lenient": 0, "selfchecks": 0, "per_op": {}, "known": [], "unknown": [], "samples": [], "bad_jobs": []}
+    tot = {"n_cmp": 0, "n_exec": 0, "n_undet": 0, "n_lenient": 0, "selfchecks": 0, "per_op": {}, "known": [], "unknown": [], "samples": [], "bad_jobs": [], "lenient": []}
     outs = set()
     for p in parts:
         for k in ("n_cmp", "n_exec", "n_undet", "n_lenient", "selfchecks"):
@@ -709,6 +788,7 @@ def explore(tier, mutate="", known=None, only_kinds=None):
         tot["known"] += p["known"]
         tot["unknown"] += p["unknown"]
         tot["samples"] += p["samples"]
+        tot["lenient"] += p["lenient"]
         tot["bad_jobs"] += p["bad_jobs"]
     tot["distinct_outcomes"] = len(outs)
     tot["sizes"] = {"values": len(vals), "texts": len(texts), "parseInt_texts": len(pints), "misc": len(MISC), "jobs": len(metas)}
@@ -724,18 +804,43 @@ def explore(tier, mutate="", known=None, only_kinds=None):
     return tot, metas
 
 
+def load_tier_lists(chk):
+    """`known-list-thorough:` lines of findings/C13.known: same file format as `known-list:`, consulted by the thorough tier only."""
+    path = os.path.join(core.ROOT, "findings", "C13.known")
+    n = 0
+    if chk.tier != "thorough" or not os.path.exists(path):
+        return n
+    for line in open(path):
+        line = line.strip()
+        if not line.startswith("known-list-thorough:"):
+            continue
+        kv = core._kv(line[len("known-list-thorough:"):])
+        if kv.get("property") != "C13":
+            continue
+        text = 'class="%s"' % kv.get("class", "")
+        known = chk.findings.known
+        for l in open(os.path.join(core.ROOT, kv["file"])):
+            p = l.split(None, 2)
+            if len(p) >= 2:
+                known[(p[0], p[1])] = text
+                n += 1
+    return n
+
+
 def run(chk):
     tier = chk.tier
+    load_tier_lists(chk)
     known = chk.findings.known
     tot, metas = explore(tier, known=known)
     dump = os.environ.get("VERIF_C13_DUMP")
     # genuine failures of whole jobs (panic / hang / throw) are violations of this property on that batch
-    for kind, first, c in tot["bad_jobs"]:
-        chk.violation({"op": "job", "kind": kind, "first": first}, c, "batch %s@%s did not complete: %s" % (kind, first, c),
-                      replay={"meta": next(m for m in metas if m["kind"] == kind and m.get("first") == first)}, expected="Value undefined")
+    for m, c in tot["bad_jobs"]:
+        n = len(m[_SPLIT_KEY[m["kind"]]])
+        chk.violation({"op": "job", "kind": m["kind"], "first": m.get("first"), "n": n}, c,
+                      "batch %s@%s (%d cases) did not complete: %s" % (m["kind"], m.get("first"), n, c), replay={"meta": m}, expected="Value undefined")
     # known findings
     kc = {}
-    for k in tot["known"]:
+    for k in sorted(tot["known"], key=lambda k: len(k) != 4):  # the ones carrying full detail first (they are printed)
         cls = k[0]
         kc[cls] = kc.get(cls, 0) + 1
         if len(k) == 4:
@@ -787,6 +892,7 @@ def run(chk):
     chk.cov["executed_not_demanded"] = tot["n_undet"]
     chk.cov["accepted_spec_alternative"] = tot["n_lenient"]
     chk.cov["reference_selfchecks"] = tot["selfchecks"]
+    chk.cov["accepted_spec_alternative_examples"] = [what_of(*l).replace("expected", "strict answer") for l in tot["lenient"][:8]]
     for f, n in sorted(tot["families"].items()):
         chk.part("values:" + f, count=n)
     for f, n in sorted(tot["text_families"].items()):
@@ -808,6 +914,9 @@ def run(chk):
     xv = os.path.join(core.ROOT, "oracle", "c13_crossval.json")
     if os.path.exists(xv):
         chk.cov["model_cross_validated_on"] = json.load(open(xv))
+    sv = os.path.join(core.ROOT, "oracle", "c13_sensitivity.json")
+    if os.path.exists(sv):
+        chk.cov["sensitivity_demonstrated_at_authoring_time"] = json.load(open(sv))
     for s in tot["samples"][:3]:
         chk.sample(s)
     for cls, case, obs, exp, ck, ok in unknown[:2]:
@@ -909,6 +1018,37 @@ if __name__ == "__main__":
         print("disagreements with node:", len(mism))
         for cls, case, obs, exp, ck, ok in mism[:60]:
             print("  ", what_of(cls, case, obs, exp))
+        if not mism:
+            path = os.path.join(core.ROOT, "oracle", "c13_crossval.json")
+            rec = json.load(open(path)) if os.path.exists(path) else {}
+            nv = subprocess.run(["node", "-p", "process.version+' (V8 '+process.versions.v8+')'"], stdout=subprocess.PIPE, text=True).stdout.strip()
+            rec[sys.argv[2]] = {"engine": "node " + nv, "reference": "vlib/c13_numref.py sha256 " + core.sha12(open(R.__file__, "rb").read()),
+                                "result": "0 disagreements", "when": "authoring time; `python3 -m vlib.checks.c13 crossval %s`" % sys.argv[2], **summ}
+            json.dump(rec, open(path, "w"), indent=1, sort_keys=True)
+            print("recorded in", path)
+    elif cmd == "sensitivity":
+        # perturb the reference (never the engine) and count what the check then reports beyond the known findings
+        tier = sys.argv[2]
+        known = core.Findings("C13").known
+        rec = {}
+        for mut in ("", "tie-even", "parse-truncate", "parse-half-up", "shortest-first"):
+            tot, _ = explore(tier, mutate=mut, known=known)
+            per = {}
+            for u in tot["unknown"]:
+                per[u[0]] = per.get(u[0], 0) + 1
+            kn = {}
+            for k in tot["known"]:
+                kn[k[0]] = kn.get(k[0], 0) + 1
+            rec[mut or "unperturbed"] = {"new_violations_by_class": dict(sorted(per.items())), "known_matched_by_class": dict(sorted(kn.items())),
+                                         "example": what_of(*tot["unknown"][0][:4]) if tot["unknown"] else None}
+            print(mut or "unperturbed", json.dumps(rec[mut or "unperturbed"], indent=1))
+        path = os.path.join(core.ROOT, "oracle", "c13_sensitivity.json")
+        json.dump({"tier": tier, "what": "reference perturbed via c13_numref.MUTATE, engine untouched; counts of violations the check then reports",
+                   "perturbations": {"tie-even": "toFixed/toExponential/toPrecision round exact ties to even instead of up",
+                                     "parse-truncate": "decimal->double truncates instead of rounding to nearest",
+                                     "parse-half-up": "decimal->double rounds exact ties up instead of to even",
+                                     "shortest-first": "Number::toString takes the smallest admissible digit string instead of the closest"},
+                   "results": rec}, open(path, "w"), indent=1, sort_keys=True)
     elif cmd == "sizes":
         for t in ("quick", "thorough"):
             print(t, len(gen_values(t)), len(gen_texts(t)), len(gen_parseint(t)))
